@@ -146,35 +146,163 @@ proof fn verif_canary_must_fail(x: int) ensures x > 0 { }
 UNKNOWN_METHOD = re.compile(r"no method named `(\w+)` found for (?:enum|struct|mutable reference|reference) `(?:&mut |&)?(\w+)`")
 
 
-def run_verus_file(uid, gen_text, obls, workdir, timeout=600, rlimit=100):
+UNKNOWN_FN = re.compile(r"cannot find function `(\w+)` in this scope")
+UNKNOWN_VALUE = re.compile(r"cannot find value `([A-Z][A-Z0-9_]+)` in this scope")
+SELF_CONST = re.compile(r"\bSelf\s*::\s*([A-Z][A-Z0-9_]*[A-Z0-9])\b(?!\s*[(])")
+DEFAULT_TYPE_MAP = {"String": "VString", "str": "VString", "anyhow :: Error": "VErr"}
+PRIM_TYPES = {"usize", "isize", "u8", "u16", "u32", "u64", "u128", "i8", "i16", "i32", "i64", "i128", "bool", "char", "f64", "f32", "Option", "Result", "Vec", "Box", "mut", "Self"}
+_src_cache = {}
+
+
+def _repo_sources():
+    key = str(REPO)
+    if key not in _src_cache:
+        files = []
+        for sub in ("bytecode/src", "compiler/src", "src", "bytecode_dev_transpiler/src"):
+            d = REPO / sub
+            if d.exists():
+                files += sorted(d.rglob("*.rs"))
+        _src_cache[key] = [(f, f.read_text(errors="replace")) for f in files]
+    return _src_cache[key]
+
+
+def _split_top(s, sep=","):
+    out, d, cur = [], 0, ""
+    for ch in s:
+        if ch in "(<[{": d += 1
+        elif ch in ")>]}": d -= 1
+        if ch == sep and d == 0:
+            out.append(cur); cur = ""
+        else:
+            cur += ch
+    if cur.strip():
+        out.append(cur)
+    return out
+
+
+def _map_type(t, type_map, gen_text):
+    """source type -> model type; None when a name in it is not known to the generated file"""
+    t = re.sub(r"&\s*'\w+\s*", "&", t.strip())
+    t = re.sub(r"<\s*'\w+\s*>", "", t)
+    t = re.sub(r"\bstd\s*::\s*(\w+\s*::\s*)*", "", t)
+    m = re.fullmatch(r"(anyhow\s*::\s*)?Result\s*<(.*)>", t)
+    if m and len(_split_top(m.group(2))) == 1:
+        inner = _map_type(m.group(2), type_map, gen_text)
+        return None if inner is None else f"Result<{inner}, VErr>"
+    for k, v in list(type_map.items()) + list(DEFAULT_TYPE_MAP.items()):
+        t = re.sub(r"(?<![\w:])" + re.escape(k).replace("\\ ", r"\s*") + r"(?![\w:])", v, t)
+    for name in re.findall(r"[A-Za-z_]\w*", t):
+        if name in PRIM_TYPES:
+            continue
+        if not re.search(r"\b(struct|enum|type|trait)\s+" + name + r"\b", gen_text):
+            return None
+    return t
+
+
+def _stub_for_unknown_fn(name, gen_text, type_map):
+    """R15c: a free function of the repository that the translated text calls but the unit's vocabulary does not have: its signature is
+    read from the source, its body is NOT taken -- an abstract callee without a contract (nothing is assumed about what it returns or does)"""
+    defs = []
+    pat = re.compile(r"\bfn\s+" + name + r"\s*(?:<[^>{}]*>)?\s*\(([^{};]*?)\)\s*(?:->\s*([^{;]+?))?\s*(?:where[^{]*)?\{", re.S)
+    for f, txt in _repo_sources():
+        for m in pat.finditer(txt):
+            defs.append((f, m))
+    if len(defs) != 1:
+        return None
+    f, m = defs[0]
+    params, ret = m.group(1), m.group(2)
+    ps = []
+    for prm in _split_top(params):
+        prm = prm.strip()
+        if not prm:
+            continue
+        if "self" in prm.split(":")[0]:
+            return None
+        if ":" not in prm:
+            return None
+        pn, pt = prm.split(":", 1)
+        pn = pn.strip().replace("mut ", "")
+        if not re.fullmatch(r"\w+", pn):
+            return None
+        mt = _map_type(pt, type_map, gen_text)
+        if mt is None:
+            return None
+        ps.append(f"{pn}: {mt}")
+    rt = ""
+    if ret:
+        mr = _map_type(ret, type_map, gen_text)
+        if mr is None:
+            return None
+        rt = f" -> (r: {mr})"
+    rel = str(f).replace(str(REPO) + "/", "")
+    return (f"\n// R15c: `{name}` ({rel}) is not in this unit's vocabulary: an abstract callee WITHOUT a contract (signature from the source; nothing assumed about it)\n"
+            f"#[verifier::external_body] pub fn {name}({', '.join(ps)}){rt} {{ unimplemented!() }}\n")
+
+
+def _const_for_unknown_value(name):
+    """R15d: an ALL-CAPS constant of the repository with a literal value: carried along verbatim"""
+    found = []
+    pat = re.compile(r"\bconst\s+" + name + r"\s*:\s*([\w:<>& ]+?)\s*=\s*(-?[\w.]+|\"[^\"\n]*\")\s*;")
+    for f, txt in _repo_sources():
+        for m in pat.finditer(txt):
+            found.append((f, m))
+    if len(found) != 1:
+        return None
+    f, m = found[0]
+    ty, val = m.group(1).strip(), m.group(2)
+    if ty not in PRIM_TYPES or val.startswith('"'):
+        return None
+    rel = str(f).replace(str(REPO) + "/", "")
+    return f"\n// R15d: constant `{name}` of {rel}: carried along verbatim\npub const {name}: {ty} = {val};\n"
+
+
+def run_verus_file(uid, gen_text, obls, workdir, timeout=600, rlimit=100, type_map=None):
     """R15b: a change may route a decision through a NEW argument-less predicate of a model type (`if x.points_to_object() { .. }`) that the
     unit's vocabulary does not have.  Instead of abstaining (the file would not compile), the predicate is added as an uninterpreted boolean
     method -- nothing is assumed about it -- and the file is verified again: the contract then decides whether the property's outcome may
-    depend on it.  Only for calls `.name()` without arguments; anything else stays undecided."""
+    depend on it.  Only for calls `.name()` without arguments.  R15c / R15d: likewise for a free helper function of the repository (an abstract
+    callee without contract, signature read from the source) and for an ALL-CAPS constant with a literal value (carried along).
+    Anything else stays undecided."""
     added = []
-    for _ in range(4):
+    type_map = dict(type_map or {})
+    # R15d (pre): `Self::CONST` inside a fragment that is no longer inside its impl
+    gen_text = SELF_CONST.sub(lambda m: m.group(0) if re.search(r"\bconst\s+" + m.group(1) + r"\b", gen_text) else m.group(1), gen_text)
+    for _ in range(6):
         res = _run_verus_once(uid, gen_text, obls, workdir, timeout, rlimit)
-        m = UNKNOWN_METHOD.search(res.undecided or "") if (res.undecided or "").startswith("generated file does not compile") else None
-        if not m or (m.group(1), m.group(2)) in added or not re.search(r"\.\s*" + m.group(1) + r"\s*\(\s*\)", gen_text):
+        und = res.undecided or ""
+        if not und.startswith("generated file does not compile"):
             break
-        name, ty = m.group(1), m.group(2)
-        added.append((name, ty))
-        fallible = re.search(r"\.\s*" + name + r"\s*\(\s*\)\s*\?", gen_text) is not None
-        if fallible:
-            # `x.name()?`: a new check that may fail -- an uninterpreted outcome (nothing assumed about when it fails)
-            stub = (f"\n// R15b: `{ty}::{name}` is not in this unit's vocabulary: an uninterpreted fallible check (nothing assumed about it)\n"
-                    f"pub uninterp spec fn verif_unknown_{ty}_{name}(p: {ty}) -> bool;\n"
-                    f"impl {ty} {{ #[verifier::external_body] pub fn {name}(&self) -> (r: Result<(), VErr>) ensures r is Ok <==> verif_unknown_{ty}_{name}(*self) {{ unimplemented!() }} }}\n")
-        else:
-            stub = (f"\n// R15b: `{ty}::{name}` is not in this unit's vocabulary: an uninterpreted predicate (nothing assumed about it)\n"
-                    f"pub uninterp spec fn verif_unknown_{ty}_{name}(p: {ty}) -> bool;\n"
-                    f"impl {ty} {{ #[verifier::external_body] pub fn {name}(&self) -> (r: bool) ensures r == verif_unknown_{ty}_{name}(*self) {{ unimplemented!() }} }}\n")
+        stub = None
+        m = UNKNOWN_METHOD.search(und)
+        mf = UNKNOWN_FN.search(und)
+        mv = UNKNOWN_VALUE.search(und)
+        if m and (m.group(1), m.group(2)) not in added and re.search(r"\.\s*" + m.group(1) + r"\s*\(\s*\)", gen_text):
+            name, ty = m.group(1), m.group(2)
+            added.append((name, ty))
+            fallible = re.search(r"\.\s*" + name + r"\s*\(\s*\)\s*\?", gen_text) is not None
+            if fallible:
+                # `x.name()?`: a new check that may fail -- an uninterpreted outcome (nothing assumed about when it fails)
+                stub = (f"\n// R15b: `{ty}::{name}` is not in this unit's vocabulary: an uninterpreted fallible check (nothing assumed about it)\n"
+                        f"pub uninterp spec fn verif_unknown_{ty}_{name}(p: {ty}) -> bool;\n"
+                        f"impl {ty} {{ #[verifier::external_body] pub fn {name}(&self) -> (r: Result<(), VErr>) ensures r is Ok <==> verif_unknown_{ty}_{name}(*self) {{ unimplemented!() }} }}\n")
+            else:
+                stub = (f"\n// R15b: `{ty}::{name}` is not in this unit's vocabulary: an uninterpreted predicate (nothing assumed about it)\n"
+                        f"pub uninterp spec fn verif_unknown_{ty}_{name}(p: {ty}) -> bool;\n"
+                        f"impl {ty} {{ #[verifier::external_body] pub fn {name}(&self) -> (r: bool) ensures r == verif_unknown_{ty}_{name}(*self) {{ unimplemented!() }} }}\n")
+        elif mf and ("fn", mf.group(1)) not in added:
+            added.append(("fn", mf.group(1)))
+            stub = _stub_for_unknown_fn(mf.group(1), gen_text, type_map)
+        elif mv and ("const", mv.group(1)) not in added:
+            added.append(("const", mv.group(1)))
+            stub = _const_for_unknown_value(mv.group(1))
+        if not stub:
+            break
         idx = gen_text.rfind("} // verus!")
         gen_text = gen_text[:idx] + stub + gen_text[idx:]
         for o in obls:
             o.status = None; o.detail = ""
     if added:
-        res.samples = list(getattr(res, "samples", []) or []) + [f"[R15b] unknown predicate {t}::{n}() ==> uninterpreted boolean method" for n, t in added]
+        res.samples = list(getattr(res, "samples", []) or []) + [f"[R15b/c/d] not in the unit's vocabulary: {t} {n} ==> carried as an abstract item" for n, t in [(a[1], a[0]) if a[0] in ("fn", "const") else a for a in added]]
     return res
 
 
